@@ -166,3 +166,22 @@ func VerifH_TimestampKeyCodec() {
 }
 
 var _ = time.Now
+
+// VerifH_ValueDecodersTotal: DecodeValue / DecodeNullableValue / DecodeValueLength /
+// DecodeValueFromKey on n arbitrary bytes, for column type number `t`: a value or an error,
+// never a panic.
+func VerifH_ValueDecodersTotal() {
+	types := []SQLValueType{IntegerType, BooleanType, VarcharType, BLOBType, UUIDType, TimestampType, Float64Type}
+	maxLens := []int{8, 1, 4, 4, 16, 8, 8}
+	ti := verifrt.Param("t")
+	b := verifrt.Bytes("b", verifrt.Param("n"))
+	_, _, err := DecodeValueLength(b)
+	_, _, err1 := DecodeValue(b, types[ti])
+	_, _, err2 := DecodeNullableValue(b, types[ti])
+	_, _, err3 := DecodeValueFromKey(b, types[ti], maxLens[ti])
+	if err != nil && err1 != nil && err2 != nil && err3 != nil {
+		verifrt.Reach("all rejected")
+	} else {
+		verifrt.Reach("some decoded")
+	}
+}
